@@ -2,6 +2,7 @@ SPECIFICATION Spec
 CONSTANTS
   Alphabet = {"D","U","DOT","E","PLUS","HASH","L"}
   MaxLen = 5
+  Prefix = "none"
   Emit = TRUE
 INVARIANTS TypeOK NoTie Tiling LineColDecl Total CodecRoundTrip SemTokOrdered EmitReplay
 CHECK_DEADLOCK FALSE
